@@ -28,7 +28,7 @@ RULE = ("two searches. crash: case = (functional, function kind, debug mode off 
         "deduplicated on (labels on the reference stack, lock depth, debug stack) to depth 6 (quick) / 8 (thorough); "
         "every sequence is replayed from a fresh object and ends with a full unwind. distinct = distinct "
         "(N per phase, outcome table) observations; a crash case is trivial when the phase makes no call (N = 0)")
-RULE_ADDED = "Added later: every crash point also with a fault that does not derive from Exception (KeyboardInterrupt-like); alias search = every set partition of up to 5 / 6 declared names for EditableModule and LinearOperator; push label 'first'. Round 4: kind em_cplx (object also holds complex / integer tensors that the function does not use). Round 5: re-assignment search = (functional incl. list-state solve_ivp, object kind, declared attribute, backward / recorded backward / double backward): the owner assigns a new tensor to the attribute between the forward call and the backward pass, the object must hold exactly that state afterwards. Round 6: kind em_nn2 (EditableModule declaring a subset of the Parameters of an inner nn.Module)."
+RULE_ADDED = "Added later: every crash point also with a fault that does not derive from Exception (KeyboardInterrupt-like); alias search = every set partition of up to 5 / 6 declared names for EditableModule and LinearOperator; push label 'first'. Round 4: kind em_cplx (object also holds complex / integer tensors that the function does not use). Round 5: re-assignment search = (functional incl. list-state solve_ivp, object kind, declared attribute, backward / recorded backward / double backward): the owner assigns a new tensor to the attribute between the forward call and the backward pass, the object must hold exactly that state afterwards. Round 6: kind em_nn2 (EditableModule declaring a subset of the Parameters of an inner nn.Module). Round 7: alias2 = every ordered PAIR of set partitions of up to 3 / 4 declared names: the object is used once (solve + backward / getuniqueparams-setuniqueparams cycle) under the first partition, its owner binds fresh tensors according to the second, a backward pass of a result of the first binding runs late, then everything is judged for the tensors held now (unique list, substitution, restoration, solution and gradients of solve by exactsolve and bicgstab)."
 ASSUMPTIONS = [
     "one fault per execution in the crash search; the fault is raised at the start of the user's function / "
     "operator product; scripted functions are not enumerated (no object state, no place to inject a fault)",
@@ -111,6 +111,10 @@ def cases(tier, seed):
     for k in range(1, (6 if quick else 7)):
         for kindo in ("em", "lo"):
             out.append({"search": "alias", "k": k, "obj": kindo})
+    # ---- (e) every ordered pair of alias partitions: used once, re-bound by the owner, used again
+    for k in range(1, (4 if quick else 5)):
+        for kindo in ("em", "lo"):
+            out.append({"search": "alias2", "k": k, "obj": kindo})
     # the runner hands out consecutive chunks of cases to its workers: spread the long breadth-first cases so
     # that no chunk holds two of them, then the remaining protocol cases, then the crash scenarios
     n = len(out) + len(proto)
@@ -1084,6 +1088,159 @@ def run_alias(cfg):
             "status": "violation" if viol else "ok", "n": nexec, "states": states, "transitions": nexec}
 
 
+def run_alias2(cfg):
+    """histories of alias partitions: the object is built with partition P1 of its k declared names, used once through
+    the real functional (solve + backward for a LinearOperator, getuniqueparams / setuniqueparams cycle for an
+    EditableModule), then its owner binds fresh tensors to the names according to partition P2 - every ordered pair
+    (P1, P2).  Afterwards everything run_alias demands must hold for P2, and for the LinearOperator the solution of
+    solve and the gradient w.r.t. every distinct tensor must be those of the tensors held NOW, the object holding
+    exactly the owner's tensors after the forward call and after the backward pass."""
+    from xitorch.linalg import solve
+    k, kindo = cfg["k"], cfg["obj"]
+    viol, seen = [], set()
+    nexec = states = 0
+    names = ["t%d" % i for i in range(k)]
+
+    def add(failure, detail, **at):
+        if failure not in seen:
+            seen.add(failure)
+            viol.append(V(failure, detail, **at))
+
+    class EM(xitorch.EditableModule):
+        def __init__(self, tens):
+            for nm, t in zip(names, tens):
+                setattr(self, nm, t)
+
+        def f(self, x):
+            return sum((i + 1.0) * getattr(self, nm) for i, nm in enumerate(names)) * x
+
+        def getparamnames(self, methodname, prefix=""):
+            return [prefix + nm for nm in names]
+
+    class LO(LinearOperator):
+        def __init__(self, tens):
+            super().__init__(shape=(2, 2), dtype=DT)
+            for nm, t in zip(names, tens):
+                setattr(self, nm, t)
+
+        def _mv(self, x):
+            return sum((i + 1.0) * getattr(self, nm) for i, nm in enumerate(names)) * x
+
+        def _getparamnames(self, prefix=""):
+            return [prefix + nm for nm in names]
+
+    B = torch.tensor([[1.0], [-2.0]], dtype=DT)
+    methods = cfg.get("methods", ["exactsolve", "bicgstab"])
+
+    def same(lst, ref):
+        return len(lst) == len(ref) and all(a is b for a, b in zip(lst, ref))
+
+    parts = _partitions(k)
+    for p1 in parts:
+        for p2 in parts:
+            for method in (methods if kindo == "lo" else [None]):
+                at = {"partition1": "".join(map(str, p1)), "partition2": "".join(map(str, p2))}
+                if method:
+                    at["solver"] = method
+                t1 = [torch.full((2,), 0.5 + 0.25 * c, dtype=DT).requires_grad_() for c in range(max(p1) + 1)]
+                t2 = [torch.tensor([0.75 + 0.5 * c, 1.25 + 0.25 * c], dtype=DT).requires_grad_()
+                      for c in range(max(p2) + 1)]
+                obj = (EM if kindo == "em" else LO)([t1[c] for c in p1])
+
+                def held():
+                    return [getattr(obj, nm) for nm in names]
+
+                def use(tens, part, judged):
+                    nonlocal nexec, states
+                    exp_held = [tens[c] for c in part]
+                    if kindo == "em":
+                        o = call(lambda: list(obj.getuniqueparams("f")))
+                        nexec += 1
+                        states += 1
+                        if o.exc is not None:
+                            return add("alias2:unique-params-raise:%s" % type(o.exc).__name__,
+                                       {"message": str(o.exc)[:200], **at}, **at)
+                        if judged and not same(o.value, tens):
+                            return add("alias2:unique-params-are-not-the-distinct-tensors-held-now",
+                                       {"n_returned": len(o.value), "n_classes": len(tens), **at}, **at)
+                        new = [torch.full((2,), 2.0 + 0.5 * c, dtype=DT) for c in range(len(o.value))]
+                        o1 = call(obj.setuniqueparams, "f", *new)
+                        nexec += 1
+                        states += 1
+                        if o1.exc is not None:
+                            return add("alias2:setuniqueparams-raises:%s" % type(o1.exc).__name__,
+                                       {"message": str(o1.exc)[:200], **at}, **at)
+                        if judged and not same(held(), [new[c] for c in part]):
+                            add("alias2:substitution-installs-wrong-tensor", dict(at), **at)
+                        o2 = call(obj.setuniqueparams, "f", *o.value)
+                        nexec += 1
+                        states += 1
+                        if judged and (o2.exc is not None or not same(held(), exp_held)):
+                            add("alias2:restore-leaves-other-tensors", dict(at), **at)
+                        return None
+                    opts = {} if method == "exactsolve" else {"rtol": 1e-12, "atol": 1e-14, "max_niter": 40}
+                    o = call(lambda: solve(obj, B, method=method, **opts))
+                    nexec += 1
+                    states += 1
+                    if o.exc is not None:
+                        return add("alias2:solve-raises:%s" % type(o.exc).__name__,
+                                   {"message": str(o.exc)[:200], **at}, **at)
+                    if judged and not same(held(), exp_held):
+                        add("alias2:object-holds-other-tensors-after-forward", dict(at), **at)
+                    d = sum((i + 1.0) * tens[c].detach() for i, c in enumerate(part)).unsqueeze(-1)
+                    xref = B / d
+                    if judged and relerr(o.value.detach(), xref) > 1e-9:
+                        add("alias2:solution-is-not-that-of-the-tensors-held-now",
+                            {"relerr": rnd(relerr(o.value.detach(), xref)), **at}, **at)
+                    g = call(lambda: torch.autograd.grad(o.value.sum(), tens, allow_unused=True))
+                    nexec += 1
+                    states += 1
+                    if g.exc is not None:
+                        return add("alias2:backward-raises:%s" % type(g.exc).__name__,
+                                   {"message": str(g.exc)[:200], **at}, **at)
+                    if judged and not same(held(), exp_held):
+                        add("alias2:object-holds-other-tensors-after-backward", dict(at), **at)
+                    if judged:
+                        for c, gc in enumerate(g.value):
+                            w = sum((i + 1.0) for i, cc in enumerate(part) if cc == c)
+                            gref = (-w * B / d ** 2).squeeze(-1)
+                            if gc is None or relerr(gc, gref) > 1e-8:
+                                add("alias2:gradient-wrong-or-missing",
+                                    {"class": c, "got": None if gc is None else rnd(gc.tolist()),
+                                     "ref": rnd(gref.tolist()), **at}, **at)
+                    return None
+
+                use(t1, p1, judged=False)
+                pending = None
+                if kindo == "lo":                  # a result of the first binding whose backward pass runs later
+                    opts = {} if method == "exactsolve" else {"rtol": 1e-12, "atol": 1e-14, "max_niter": 40}
+                    pending = call(lambda: solve(obj, B, method=method, **opts))
+                    nexec += 1
+                for nm, c in zip(names, p2):       # the owner re-binds every declared name
+                    setattr(obj, nm, t2[c])
+                if pending is not None and pending.exc is None:
+                    g = call(lambda: torch.autograd.grad(pending.value.sum(), t1, allow_unused=True))
+                    nexec += 1
+                    states += 1
+                    if g.exc is not None:
+                        add("alias2:late-backward-raises:%s" % type(g.exc).__name__,
+                            {"message": str(g.exc)[:200], **at}, **at)
+                    else:
+                        if not same(held(), [t2[c] for c in p2]):
+                            add("alias2:object-holds-other-tensors-after-late-backward", dict(at), **at)
+                        d1 = sum((i + 1.0) * t1[c].detach() for i, c in enumerate(p1)).unsqueeze(-1)
+                        for c, gc in enumerate(g.value):
+                            w = sum((i + 1.0) for i, cc in enumerate(p1) if cc == c)
+                            gref = (-w * B / d1 ** 2).squeeze(-1)
+                            if gc is None or relerr(gc, gref) > 1e-8:
+                                add("alias2:late-gradient-is-not-that-of-the-forward-call",
+                                    {"class": c, "got": None if gc is None else rnd(gc.tolist()),
+                                     "ref": rnd(gref.tolist()), **at}, **at)
+                use(t2, p2, judged=True)
+    return {"viol": viol[:6], "obs": {"k": k, "obj": kindo, "pairs": len(parts) ** 2, "nviol": len(viol)},
+            "status": "violation" if viol else "ok", "n": nexec, "states": states, "transitions": nexec}
+
+
 # =================================================================== (d) owner re-assigns between forward and backward
 
 MUT_KINDS = ["nn_flat", "nn_nested", "nn_tied", "nn_extra", "em_leaves", "em_derived", "em_alias", "em_list",
@@ -1160,12 +1317,14 @@ def run_case(cfg):
         return run_protocol(cfg)
     if cfg["search"] == "alias":
         return run_alias(cfg)
+    if cfg["search"] == "alias2":
+        return run_alias2(cfg)
     return run_crash(cfg)
 
 
 def coverage_extra(tier, seed, results):
     mut = [r for r in results if r["cfg"]["search"] == "mut"]
-    results = [r for r in results if r["cfg"]["search"] not in ("alias", "mut")] or results
+    results = [r for r in results if r["cfg"]["search"] not in ("alias", "alias2", "mut")] or results
     crash = [r for r in results if r["cfg"]["search"] == "crash"]
     proto = [r for r in results if r["cfg"]["search"] == "protocol"]
     dims = {}
